@@ -474,6 +474,8 @@ func isReplyCall(c *ssa.CallCommon, isW func(ssa.Value) bool) bool {
 		return len(c.Args) > 0 && isW(c.Args[0])
 	case "io.Copy":
 		return len(c.Args) > 0 && isW(c.Args[0])
+	case "(*bytes.Buffer).WriteTo", "(*strings.Reader).WriteTo", "(*bytes.Reader).WriteTo":
+		return len(c.Args) > 1 && isW(c.Args[1])
 	case "(*html/template.Template).Execute", "(*text/template.Template).Execute":
 		return len(c.Args) > 1 && isW(c.Args[1])
 	case "(*encoding/json.Encoder).Encode", "(*encoding/xml.Encoder).Encode":
@@ -558,6 +560,7 @@ func (ra *replyAnalysis) summary(fn *ssa.Function) *replySummary {
 	}
 	one, zero := replyRange{1, 1}, replyRange{0, 0}
 	splitNil, splitNon := map[*ssa.Return]replyRange{}, map[*ssa.Return]replyRange{}
+	splitErrNil, splitErrNon := map[*ssa.Return]replyRange{}, map[*ssa.Return]replyRange{}
 	in[fn.Blocks[0]] = &st{pending: map[ssa.Value]condCount{}}
 	for _, b := range fc.rpo {
 		s := in[b]
@@ -640,10 +643,25 @@ func (ra *replyAnalysis) summary(fn *ssa.Function) *replySummary {
 						}
 					}
 				}
+				// an error result forwarded from a reply action (or a callee) whose count depends on that error: likewise
+				var fwdErr ssa.Value
+				if ei := errIndex(fn); ei >= 0 && ei < len(ret.Results) && fwd == nil {
+					if ev := Resolve(ret.Results[ei]); ev != nil {
+						if _, ok := cur.pending[ev]; ok {
+							fwdErr = ev
+						}
+					}
+				}
 				for k, pc := range cur.pending {
-					if k == fwd {
+					if k == fwd || k == fwdErr {
 						continue
 					}
+					rr = rr.add(joinRange(pc.ifNil, pc.ifNonNil))
+				}
+				if fwdErr != nil {
+					pc := cur.pending[fwdErr]
+					splitErrNil[ret] = rr.add(pc.ifNil)
+					splitErrNon[ret] = rr.add(pc.ifNonNil)
 					rr = rr.add(joinRange(pc.ifNil, pc.ifNonNil))
 				}
 				if fwd != nil {
@@ -705,7 +723,10 @@ func (ra *replyAnalysis) summary(fn *ssa.Function) *replySummary {
 				}
 			}
 		}
-		if ei >= 0 && ei < len(ret.Results) {
+		if sn, ok := splitErrNil[ret]; ok {
+			joinPtr(&sum.errNil, sn)
+			joinPtr(&sum.errNonNil, splitErrNon[ret])
+		} else if ei >= 0 && ei < len(ret.Results) {
 			ev := Resolve(ret.Results[ei])
 			nn := fc.NonNil(ev)
 			switch {
